@@ -28,6 +28,8 @@ import (
 	"encoding/json"
 	"fmt"
 	"math/rand"
+	"os"
+	"runtime/pprof"
 	"sort"
 	"strings"
 	"time"
@@ -174,6 +176,8 @@ type c01Engine struct {
 	n     int
 	graph string
 	mode  string
+	// set when a run with `distinct` took seconds (temporary Badger store per run)
+	distinctSlow bool
 }
 
 func (c *c01Engine) reset(g map[string]interface{}) error {
@@ -206,6 +210,7 @@ type c01Result struct {
 	typ        string
 	rows       []interface{} // canonical, sorted
 	bad        string
+	slow       bool
 }
 
 func toIfaces(q []c01Stmt) []interface{} {
@@ -234,6 +239,13 @@ func (c *c01Engine) run(q []c01Stmt) c01Result {
 		return c01Result{compileErr: true}
 	}
 	if out.TimedOut {
+		for _, st := range q {
+			if c01Kind(st) == "distinct" {
+				// Distinct opens a temporary Badger store per run; on a loaded machine that alone
+				// can exceed the deadline.  Termination is C07's subject: counted, not compared.
+				return c01Result{slow: true}
+			}
+		}
 		return c01Result{bad: "timeout"}
 	}
 	if out.Panic != "" {
@@ -286,7 +298,23 @@ func (c *c01Engine) exec(op map[string]interface{}) map[string]interface{} {
 		if c01Hazard(q) {
 			return map[string]interface{}{"skip": true}
 		}
+		hasDistinct := false
+		for _, st := range q {
+			if c01Kind(st) == "distinct" {
+				hasDistinct = true
+			}
+		}
+		if hasDistinct && c.distinctSlow {
+			return map[string]interface{}{"skip": true, "why": "distinct: temporary store too slow on this machine"}
+		}
+		t0 := time.Now()
 		res := c.run(q)
+		if hasDistinct && (res.slow || time.Since(t0) > 4*time.Second) {
+			c.distinctSlow = true
+		}
+		if res.slow {
+			return map[string]interface{}{"skip": true, "why": "distinct: timeout opening temporary store"}
+		}
 		if res.bad != "" {
 			return map[string]interface{}{"bad": res.bad}
 		}
@@ -298,6 +326,9 @@ func (c *c01Engine) exec(op map[string]interface{}) map[string]interface{} {
 		case "nsub", "sub":
 			_, untr := c01Classify(q)
 			u := c.run(untr)
+			if u.slow {
+				return map[string]interface{}{"skip": true}
+			}
 			if u.bad != "" || u.compileErr {
 				return map[string]interface{}{"bad": "untruncated run failed: " + u.bad}
 			}
@@ -650,6 +681,11 @@ func c01Key(q []c01Stmt) string {
 }
 
 func c01Gen(r *Run) {
+	if pf := os.Getenv("C01_CPUPROFILE"); pf != "" {
+		f, _ := os.Create(pf)
+		pprof.StartCPUProfile(f)
+		defer pprof.StopCPUProfile()
+	}
 	eng, err := NewEng("badger")
 	if err != nil {
 		panic(err)
@@ -658,6 +694,19 @@ func c01Gen(r *Run) {
 	c := &c01Engine{eng: eng, mode: r.Mode}
 	thorough := r.Tier == "thorough"
 	prod := r.Mode == "prod"
+	// wall-clock budget for the run (the machine may be shared): phases stop when it is used up
+	// and the evidence says how far they got.
+	budget := 40 * time.Second
+	if thorough {
+		budget = 5 * time.Minute
+	}
+	if b := os.Getenv("C01_BUDGET_S"); b != "" {
+		var n int
+		fmt.Sscanf(b, "%d", &n)
+		budget = time.Duration(n) * time.Second
+	}
+	t0 := time.Now()
+	over := func(frac float64) bool { return time.Since(t0) > time.Duration(float64(budget)*frac) }
 
 	emit := func(op map[string]interface{}) map[string]interface{} {
 		obs := c.exec(op)
@@ -764,9 +813,18 @@ func c01Gen(r *Run) {
 		r.Dist["exhaustive:well-typed"] = nOK
 		r.Exhaustive = true
 		for gi, g := range graphs {
+			if gi > 0 && over(0.6) {
+				r.Count("exhaustive:graphs-not-reached")
+				continue
+			}
+			r.Count("exhaustive:graphs-run")
 			emit(map[string]interface{}{"op": "reset", "graph": g})
 			n := 0
 			for _, p := range all {
+				if gi > 0 && over(0.7) {
+					r.Exhaustive = false
+					break
+				}
 				if !p.ok && gi > 0 {
 					continue
 				}
@@ -796,7 +854,10 @@ func c01Gen(r *Run) {
 	if prod {
 		nrand = nrand / 2
 	}
-	ndistinctEvery := 10
+	ndistinctEvery := 60
+	if thorough {
+		ndistinctEvery = 100
+	}
 	// fixed distinct programs (default key, label key, data key, missing key, mark key)
 	if !prod {
 		emit(map[string]interface{}{"op": "reset", "graph": graphs[0]})
@@ -814,6 +875,10 @@ func c01Gen(r *Run) {
 		}
 	}
 	for i := 0; i < nrand; i++ {
+		if i > 60 && over(1.0) {
+			r.Count("random:not-run-budget")
+			continue
+		}
 		if i%25 == 0 {
 			g := Pick(r.Rng, graphs)
 			if r.Rng.Intn(3) == 0 {
